@@ -150,6 +150,19 @@ func within(f func()) (returned bool, panicked any) {
 	case <-done:
 		return true, pv
 	case <-time.After(wedgeAfter):
+	}
+	// on a heavily overloaded machine slowness is not a wedge: keep waiting, up to six times the bound
+	for waited := wedgeAfter; waited < 6*wedgeAfter && overloaded(); waited += 2 * time.Second {
+		select {
+		case <-done:
+			return true, pv
+		case <-time.After(2 * time.Second):
+		}
+	}
+	select {
+	case <-done:
+		return true, pv
+	default:
 		return false, nil
 	}
 }
